@@ -7,6 +7,10 @@ ids = [json.loads(l)["id"] for l in open(os.path.join(HERE, "properties.jsonl"))
 TECH = "bounded model checking of the real code: Kani 0.68 -> CBMC 6.11 (cadical SAT); symbolic inputs, concrete sizes, unwinding assertions on; counterexamples replayed natively"
 
 CLAIMED = {
+ "C03": dict(
+   text="CBMC runs the REAL generated Contract{Exec,Query,Sudo}Msg::deserialize glue (and the derived decoders of every part on the same document) for a received name with symbolic bytes of each length 3..7, concrete body layouts with symbolic values, and the top-level shapes string/null/number/{}/two keys/{name:number}: the wrapper accepts iff exactly one part accepts, holds that part's variant with a payload equal to the part's own decoding; everything else is an error without panic; the wrapper serialises to the same serde events as the part. For corpus `names` (leading/repeated underscores, digits) the published list equals the set of names the decoder accepts, for every received name of length 1..8.",
+   note="the serde_cw_value container is replaced by a bounded two-level model (hw/facade; <=3 entries, strings <=8 bytes; overflow asserted absent) which is validated natively against the real container and real JSON text on 40 documents in every run (pre-flight), the error TEXT (format!, String::push_str stubbed) and the JSON text layer are outside; program dimension sampled (3 corpus contracts)",
+   ref="§3 C03"),
  "C01": dict(
    text="CBMC decides, over the derived (de)serialisers of the message types the real macros generate for corpus `basic` (contract: 5 kinds; two interfaces), driven through the serde data model: (a) for symbolic variant and argument values the recorded serde events are exactly {name:{arg:value..}} with the arguments in declaration order (flat struct for instantiate/migrate) and constructors equal literals; (c) for a symbolic received name of each length 3..7 the type accepts it iff it is the name of a method of that kind (hand-written list) -- and iff it is in the published list; for 10 body layouts with symbolic values decoding succeeds iff every argument is present exactly once and in range, and the decoded value re-serialises to the oracle's events.",
    note="JSON text layer (serde_json_wasm) outside: harness-supplied Serializer/Deserializer stand in its place; argument types u8/u32/u64/bool; names <= 7 bytes; program dimension sampled (17 handlers incl. multi-word and digit-bearing names); trusted: Kani/CBMC/cadical, HSpec table",
